@@ -147,6 +147,10 @@ Record sess_case := { sc_subqos : Z; sc_steps : list sess_step; sc_bad : bool }.
 
 Definition to_emit (p : Z * Z * Z) : emit := let '(id, q, m) := p in Pkt id q m.
 
+(** a QoS-0 PUBLISH carries no packet id on the wire (the codec reads it as 0) *)
+Definition wire (e : emit) : emit :=
+  match e with Pkt id q m => Pkt (if q =? 0 then 0 else id) q m end.
+
 Definition is_tick (s : sess) (p : emit) : bool :=
   match snd (tick s) with
   | [e] => emit_eqb e p
@@ -173,7 +177,7 @@ Definition sess_effect (subqos : Z) (s : sess) (npub : Z) (st : sess_step) : ses
   match ss_op st with
   | OPub q =>
       if subqos <? q then (s, [], npub + 1)
-      else let '(s', e) := publish s q npub false in (s', e, npub + 1)
+      else let '(s', e) := publish s q npub false in (s', map wire e, npub + 1)
   | OAck => if 0 <=? ss_acked st then (puback s (ss_acked st), [], npub) else (s, [], npub)
   | _ => (s, [], npub)
   end.
@@ -340,34 +344,44 @@ Definition life_events (o : life_op) : list ev :=
 
 Definition pair_bt_eqb (a b : bool * topics) : bool := Bool.eqb (fst a) (fst b) && topics_eqb (snd a) (snd b).
 
-Definition model_smap (st : state) : list (string * (bool * bool * topics)) :=
-  map (fun '(cid, sid) => let s := get_sess st sid in (cid, (s_clean s, s_closed s, s_topics s))) (smap st).
-
 Definition smap_v_eqb (a b : bool * bool * topics) : bool :=
   let '(c1, d1, t1) := a in let '(c2, d2, t2) := b in Bool.eqb c1 c2 && Bool.eqb d1 d2 && topics_eqb t1 t2.
 
-Definition trie_agrees (st : state) (sn : snap) : bool :=
-  forallb (fun '(cid, tp) => topics_eqb tp (trie_of st cid)) (sn_trie sn) &&
-  forallb (fun '(cid, tp) => match tp with
-                             | [] => true
-                             | _ => match sget cid (sn_trie sn) with Some _ => true | None => false end
-                             end) (trie st).
+(** the model's state in the harness' snapshot format *)
+Definition model_snap (st : state) : snap :=
+  {| sn_clients := flat_map (fun '(cid, cs) => match reg cs with Some k => [(cid, k)] | None => [] end) (cids st);
+     sn_live := flat_map (fun '(_, cs) => map (fun '(k, c) => (k, c_live c)) (conns cs)) (cids st);
+     sn_smap := flat_map (fun '(cid, cs) => match smp cs with
+                                            | Some sid => let s := get_sess cs sid in [(cid, (s_clean s, s_closed s, s_topics s))]
+                                            | None => []
+                                            end) (cids st);
+     sn_db := flat_map (fun '(cid, cs) => match dbv cs with Some v => [(cid, v)] | None => [] end) (cids st);
+     sn_trie := flat_map (fun '(cid, cs) => match tri cs with [] => [] | tp => [(cid, tp)] end) (cids st) |}.
 
-Definition snap_agrees (st : state) (sn : snap) : bool :=
-  amap_eqb String.eqb Z.eqb (clients st) (sn_clients sn) &&
-  forallb (fun '(k, b) => match zget k (conns st) with Some c => Bool.eqb (c_live c) b | None => false end) (sn_live sn) &&
-  Nat.eqb (List.length (conns st)) (List.length (sn_live sn)) &&
-  amap_eqb String.eqb smap_v_eqb (model_smap st) (sn_smap sn) &&
-  amap_eqb String.eqb pair_bt_eqb (db st) (sn_db sn) &&
-  trie_agrees st sn.
+Definition bool_eqb_v (a b : bool) : bool := Bool.eqb a b.
+
+Definition snap_eqb (a b : snap) : bool :=
+  amap_eqb String.eqb Z.eqb (sn_clients a) (sn_clients b) &&
+  amap_eqb Z.eqb bool_eqb_v (sn_live a) (sn_live b) &&
+  amap_eqb String.eqb smap_v_eqb (sn_smap a) (sn_smap b) &&
+  amap_eqb String.eqb pair_bt_eqb (sn_db a) (sn_db b) &&
+  amap_eqb String.eqb topics_eqb (sn_trie a) (sn_trie b).
+
+Definition snap_agrees (st : state) (sn : snap) : bool := snap_eqb (model_snap st) sn.
+
+Definition conn_live (st : state) (k : Z) : bool :=
+  match zget k (owners st) with
+  | Some cid => match zget k (conns (cget st cid)) with Some c => c_live c | None => false end
+  | None => false
+  end.
 
 Definition op_agrees (st_before st_after : state) (o : life_op) : bool :=
   match o with
   | LPub row recv => zseteq (receivers (row_matches row) st_after) recv
   | LDrop k poke eof =>
       (* a PINGREQ on a connection the broker has already closed ends its read loop (EOF at the client);
-         on a live connection it is answered and nothing is torn down: the harness only pokes closed ones *)
-      if poke then eof else true
+         the harness only pokes closed ones *)
+      if poke then eof && negb (conn_live st_before k) else true
   | _ => true
   end.
 
@@ -482,23 +496,23 @@ Fixpoint life_prop (sp : list (string * spec_cid)) (steps : list (life_op * snap
       spec_holds sn sp' && spec_op_holds sp sp' sn o && life_prop sp' t
   end.
 
-(** the snapshots the model itself produces (to run the property checker on the ideal model) *)
-Definition model_snap (st : state) : snap :=
-  {| sn_clients := clients st;
-     sn_live := map (fun '(k, c) => (k, c_live c)) (conns st);
-     sn_smap := model_smap st;
-     sn_db := db st;
-     sn_trie := trie st |}.
+Definition poke_of_live (st : state) (o : life_op) : bool :=
+  match o with
+  | LDrop k true _ => conn_live st k
+  | _ => false
+  end.
 
+(** a history recorded against the pinned code may poke a connection that the model under other flags
+    still has alive: there the PINGREQ is an ordinary ping and the step is void *)
 Fixpoint model_steps (q : quirks) (st : state) (steps : list (life_op * snap)) : list (life_op * snap) :=
   match steps with
   | [] => []
   | (o, _) :: t =>
+      if poke_of_live st o then model_steps q st t else
       let st' := run q st (life_events o) in
       let o' := match o with
                 | LPub row _ => LPub row (receivers (row_matches row) st')
-                | LDrop k poke _ =>
-                    LDrop k poke (match zget k (conns st) with Some c => negb (c_live c) | None => false end)
+                | LDrop k poke _ => LDrop k poke poke
                 | _ => o
                 end in
       (o', model_snap st') :: model_steps q st' t
